@@ -31,6 +31,8 @@ enum Tk {
     SstoreTop,
     UseSigned,
     MapKeyTop0,
+    UseUnsigned,
+    UseAddress,
 }
 
 /// Slot-self-referential shapes (a slot's value used as index / key into the same or another slot): the
@@ -89,6 +91,9 @@ fn alphabet() -> Vec<Tk> {
         Tk::Cdl0,
         Tk::Dup1,
         Tk::Swap1,
+        Tk::UseUnsigned,
+        Tk::UseSigned,
+        Tk::UseAddress,
     ]
 }
 
@@ -99,7 +104,7 @@ fn arity(t: Tk) -> (usize, usize) {
         Tk::Mask160 | Tk::MaskFF | Tk::IsZero | Tk::ArrKey0Add => (1, 1),
         Tk::Dup1 => (1, 2),
         Tk::Swap1 => (2, 2),
-        Tk::SloadTop | Tk::UseSigned | Tk::MapKeyTop0 => (1, 1),
+        Tk::SloadTop | Tk::UseSigned | Tk::MapKeyTop0 | Tk::UseUnsigned | Tk::UseAddress => (1, 1),
         Tk::SstoreTop => (2, 0),
     }
 }
@@ -129,12 +134,15 @@ fn expand(seq: &[Tk]) -> Vec<u8> {
             Tk::SstoreTop => t.push(o(op::SSTORE)),
             Tk::UseSigned => t.extend([o(op::DUP1), p(0), o(op::SLT), o(op::POP)]),
             Tk::MapKeyTop0 => t.extend(mapkey_from_stack(U::ZERO)),
+            Tk::UseUnsigned => t.extend([o(op::DUP1), p(0x20), o(op::CALLDATALOAD), o(op::LT), o(op::POP)]),
+            Tk::UseAddress => t.extend([o(op::DUP1), o(op::BALANCE), o(op::POP)]),
         }
     }
     assemble(&t)
 }
 
 const BUDGET: u64 = 100_000;
+const NATURAL_RUNS: usize = 4;
 
 fn run(code: &[u8], plan: &Plan) -> Obs {
     let w = CountingWatchdog::new(1, Some(BUDGET));
@@ -214,8 +222,52 @@ pub fn explore_program(code: &[u8], bound: usize, max_schedules: u64) -> Result<
     Ok(explored)
 }
 
+/// Normal form of a unification outcome for comparison across schedules: per original variable its class
+/// (smallest original member) and its resolved type with conflicts collapsed and fresh variables anonymised.
+fn judgement_outcome(out: &crate::unif::Outcome) -> String {
+    use crate::unif::{ix, Outcome};
+    use sle::tc::expression::TypeExpression as TE;
+    match out {
+        Outcome::Done(r) => {
+            let class_name = |v: &sle::tc::state::type_variable::TypeVariable| -> String {
+                let c = r.classes.get(&ix(v));
+                let m = r.vars.iter().position(|o| r.classes.get(&ix(o)) == c && c.is_some());
+                m.map(|i| format!("v{i}")).unwrap_or_else(|| "_".into())
+            };
+            let render = |t: &TE| -> String {
+                match t {
+                    TE::Conflict { .. } => "Conflict".into(),
+                    TE::Mapping { key, value } => format!("Mapping({},{})", class_name(key), class_name(value)),
+                    TE::DynamicArray { element } => format!("DynArray({})", class_name(element)),
+                    TE::FixedArray { element, length } => format!("FixedArray({},{length})", class_name(element)),
+                    TE::Packed { types, is_struct } => format!(
+                        "Packed{}[{}]",
+                        if *is_struct { "S" } else { "" },
+                        types.iter().map(|s| format!("{}@{}+{}", class_name(&s.typ), s.offset, s.size)).collect::<Vec<_>>().join(",")
+                    ),
+                    other => format!("{other:?}"),
+                }
+            };
+            r.vars
+                .iter()
+                .enumerate()
+                .map(|(i, v)| {
+                    let mut ts: Vec<String> = r.types[i].iter().map(render).collect();
+                    ts.sort();
+                    format!("{}:{}", class_name(v), ts.join("|"))
+                })
+                .collect::<Vec<_>>()
+                .join(" ; ")
+        }
+        Outcome::Panic(p) => format!("panic {}", panic_site(p)),
+        Outcome::OverBudget => "non-terminating".into(),
+        Outcome::Error(e) => format!("error {}", &e[..e.len().min(40)]),
+    }
+}
+
 #[derive(Clone, Debug)]
 enum Chunk {
+    Judgements(usize),
     SelfReference(usize),
     Evidence(usize),
     Idioms(usize, usize),
@@ -232,6 +284,9 @@ fn corpus_programs() -> Vec<(String, Vec<u8>)> {
 
 fn plan(_tier: Tier) -> Vec<Chunk> {
     let mut v = Vec::new();
+    for c in 0..crate::c14::alphabet().len() {
+        v.push(Chunk::Judgements(c));
+    }
     for c in 0..16 {
         v.push(Chunk::SelfReference(c));
     }
@@ -256,6 +311,28 @@ fn explore_and_record(ctx: &mut Ctx, family: &str, code: &[u8], bound: usize, ca
     ctx.count(family, 1);
     match explore_program(code, bound, cap) {
         Ok(e) => {
+            // cross-check with natural hash order (sampling, not deciding): if real random seeds produce an
+            // outcome that no explored plan produced, either the deviation bound is too small or the hooks miss
+            // an order-sensitive point
+            let reference = run(code, &Vec::new()).canon_result();
+            for _ in 0..NATURAL_RUNS {
+                ctx.count("natural_runs", 1);
+                let w = CountingWatchdog::new(1, Some(BUDGET));
+                let o = crate::obs::analyze_natural(code, sle::vm::Config::default(), w);
+                if o.canon_result() != reference {
+                    ctx.violation(
+                        "natural-order-dependence",
+                        format!(
+                            "a run with real hash seeds gives {} while the canonical order and all {} explored plans give {reference} [{}]",
+                            o.canon_result(),
+                            e.schedules,
+                            hex(&code[..code.len().min(60)])
+                        ),
+                        json!({"bytes": hex(code), "plan": [], "natural": true}),
+                    );
+                    break;
+                }
+            }
             ctx.count("schedules", e.schedules);
             ctx.count("order_points_with_a_choice", e.points);
             if e.points > 0 {
@@ -298,6 +375,62 @@ impl Check for C02 {
     }
     fn run_chunk(&self, tier: Tier, chunk: usize, ctx: &mut Ctx) {
         match plan(tier)[chunk].clone() {
+            Chunk::Judgements(first) => {
+                // the unifier driven directly: all judgement sets over the C14 alphabet, all single deviations
+                let alpha = crate::c14::alphabet();
+                let max = if tier.thorough() { 4 } else { 3 };
+                fn rec(
+                    alpha: &[(usize, crate::unif::J)],
+                    start: usize,
+                    cur: &mut Vec<(usize, crate::unif::J)>,
+                    max: usize,
+                    f: &mut dyn FnMut(&[(usize, crate::unif::J)]),
+                ) {
+                    f(cur);
+                    if cur.len() >= max {
+                        return;
+                    }
+                    for i in start..alpha.len() {
+                        cur.push(alpha[i].clone());
+                        rec(alpha, i + 1, cur, max, f);
+                        cur.pop();
+                    }
+                }
+                let mut cur = vec![alpha[first].clone()];
+                rec(&alpha, first + 1, &mut cur, max, &mut |set| {
+                    if set.len() < 2 {
+                        return;
+                    }
+                    ctx.case(|| json!({"judgements": crate::unif::set_json(set), "plan": []}));
+                    ctx.count("judgement_sets", 1);
+                    let (base, log) = crate::unif::run(crate::c14::N, set, &Vec::new());
+                    let reference = judgement_outcome(&base);
+                    ctx.count("schedules", 1);
+                    let filter: &dyn Fn(&str) -> bool = if set.len() <= 3 { &|_| true } else { &|s| s.starts_with("unify.") };
+                    let plans = extend(&Vec::new(), &log, filter);
+                    if !plans.is_empty() {
+                        ctx.distinct("nontrivial", crate::util::h64(&format!("{set:?}")));
+                    }
+                    for pl in plans {
+                        ctx.count("schedules", 1);
+                        let (o, _) = crate::unif::run(crate::c14::N, set, &pl);
+                        let got = judgement_outcome(&o);
+                        if got != reference {
+                            let site = pl.last().map(|((s, _), _)| s.clone()).unwrap_or_default();
+                            ctx.violation(
+                                format!("unifier-outcome-depends-on-order:{site}"),
+                                format!(
+                                    "judgements [{}]: canonical order resolves to [{reference}], plan {} to [{got}]",
+                                    crate::unif::show_set(set),
+                                    plan_json(&pl)
+                                ),
+                                json!({"judgements": crate::unif::set_json(set), "plan": plan_json(&pl)}),
+                            );
+                            break;
+                        }
+                    }
+                });
+            }
             Chunk::SelfReference(c) => {
                 for (i, seq) in self_reference_family().into_iter().enumerate() {
                     if i % 16 != c {
@@ -374,7 +507,8 @@ impl Check for C02 {
             total.get("schedules").max(1),
             total.get("schedules"),
             &format!(
-                "programs: all stack-safe sequences <= {} over 13 evidence tokens (SLOAD / SSTORE of slots 0 and 1, 160-bit and 8-bit \
+                "the unifier driven directly on all judgement sets of 2..{} judgements over the C14 alphabet (3 variables x 27 judgements) \
+                 under every single deviation, outcomes compared after normalisation; programs: all stack-safe sequences <= {} over 16 evidence tokens (SLOAD / SSTORE of slots 0 and 1, 160-bit and 8-bit \
                  masks, ISZERO, keccak(0) + x, keccak(caller . 0), CALLER, CALLDATALOAD, DUP1, SWAP1) that touch storage; 240 \
                  slot-self-referential programs of 4-9 tokens (a slot's value used as array index / mapping key for a second access, \
                  with masks, zero tests and signed use in between); idiom \
@@ -387,6 +521,7 @@ impl Check for C02 {
                  those of the canonical order. Every run is replayed deterministically (canonical run executed twice with identical \
                  observation and order-point log; a plan that does not fit its point is a machinery error). states = programs with \
                  at least one order point that offers a choice; transitions = schedules executed",
+                if tier.thorough() { 4 } else { 3 },
                 if tier.thorough() { 5 } else { 4 },
                 if tier.thorough() { 4 } else { 2 },
                 if tier.thorough() { " (bound 2 for sequences <= 3)" } else { "" }
@@ -403,13 +538,34 @@ impl Check for C02 {
             "the hooks cover every place where a hash collection is turned into a sequence (list in DESIGN.md section 7); natural hash order is a subset of the explored permutations at those points".into(),
             "at the two VM export points the whole exported vector is permuted, a superset of what natural map iteration can produce".into(),
             "conflict explanations, type-variable numbers and the order of error payloads are don't-cares".into(),
+            "4 natural runs per program (real hash seeds, no controller) are a sampling cross-check of the hooks' completeness and of the deviation bound; they never decide on their own that the property holds".into(),
             "a per-program cap on the number of schedules applies to the shipped contracts (reported as schedule_caps_hit); below the cap the enumeration is complete for the stated deviation bound".into(),
         ]
     }
     fn replay(&self, replay: &Value) -> bool {
         let c = &replay["case"];
+        if c.get("judgements").is_some() {
+            let set = crate::unif::set_from_json(&c["judgements"]);
+            let plan = plan_from_json(&c["plan"]);
+            let a = judgement_outcome(&crate::unif::run(crate::c14::N, &set, &Vec::new()).0);
+            let b = judgement_outcome(&crate::unif::run(crate::c14::N, &set, &plan).0);
+            println!("judgements: {}
+canonical order: {a}
+plan {}: {b}", crate::unif::show_set(&set), plan_json(&plan));
+            return a != b;
+        }
         let code = unhex(c["bytes"].as_str().unwrap());
         let plan = plan_from_json(&c["plan"]);
+        if c["natural"] == true {
+            // not replayable by construction: run naturally many times and report the distinct outcomes
+            let mut outcomes = std::collections::BTreeMap::new();
+            for _ in 0..200 {
+                let w = CountingWatchdog::new(1, Some(BUDGET));
+                *outcomes.entry(crate::obs::analyze_natural(&code, sle::vm::Config::default(), w).canon_result()).or_insert(0) += 1;
+            }
+            println!("200 natural runs: {outcomes:?}");
+            return outcomes.len() > 1;
+        }
         let base = run(&code, &Vec::new());
         let o = run(&code, &plan);
         println!("code: {}", hex(&code[..code.len().min(80)]));
